@@ -908,6 +908,8 @@ class Interp(object):
             return args[0] if args else Top('copy')
         if qual == 'functools.partial':
             return self.make_partial(args, kwargs)
+        if qual.startswith('six.moves.') and qual[10:] in ('range', 'zip', 'map', 'filter'):
+            return self.builtin(qual[10:], args, kwargs, node, frame)
         return Top('call:' + qual)
 
     def make_partial(self, args, kwargs):
@@ -987,6 +989,14 @@ class Interp(object):
                 except Exception:
                     return Top('str')
             if name == 'format':
+                try:
+                    return base.format(*args)
+                except Exception:
+                    return Top('str')
+        if isinstance(base, str) and name == 'format' and not _has_abstract(list(args)) and not _has_abstract(kwargs):
+            try:
+                return base.format(*args, **kwargs)
+            except Exception:
                 return Top('str')
         if isinstance(base, Tok):
             if name in ('strip', 'lstrip', 'rstrip'):
